@@ -214,6 +214,7 @@ def run(ctx):
     stream.wrapper_finishers(ctx, P)
     block_type_tables(ctx, P)
     header_line_separator(ctx, P)
+    stream.partial_buffer_verdicts(ctx, P)
     # tolerant reading must not panic on any armored input: the R-panic inventory of C04 restricted to the armor / base64 / line-writer modules
     from rules import c04
     c04.r_panic(ctx, P, only=r'armor::|base64::|line_writer::', floors=(70, 35, 5))
